@@ -253,10 +253,17 @@ func (c *AsyncLogger) GetDiscardCounter() int64 {
 	return atomic.LoadInt64(&c.discardCounter)
 }
 
+// maxAsyncBufferSize bounds the event buffer; larger values cannot be
+// allocated as a channel (make panics) and are reported as a start error.
+const maxAsyncBufferSize = 1 << 24
+
 // Start initializes the AsyncLogger and launches the worker goroutine.
 func (c *AsyncLogger) Start() error {
 	if c.BufferSize < 100 {
 		return errutil.Explain(nil, "bufferSize is too small")
+	}
+	if c.BufferSize > maxAsyncBufferSize {
+		return errutil.Explain(nil, "bufferSize is too large")
 	}
 
 	c.buf = make(chan any, c.BufferSize)
